@@ -493,17 +493,26 @@ func ruleCallbackReentrancy() check.Rule {
 						if !ok || sel.Sel.Name != "Add" || len(call.Args) != 1 {
 							return true
 						}
-						lit, ok := ast.Unparen(call.Args[0]).(*ast.FuncLit)
-						if !ok {
-							return true
-						}
-						res := lockResult(p, lit)
-						for _, op := range res.Ops {
-							if op.Kind == "Lock" || op.Kind == "RLock" {
-								for k := range normSet(lockset.Set{op.Key: true}, rv) {
-									tdLocks[k] = true
+						// the teardown: a literal, a named closure or a method value, and the helper methods it calls
+						for _, b := range resolveFuncBodies(m, p, call.Args[0]) {
+							inspectTransitive(m, b.Pkg, b.Body, 3, func(q *packages.Package, y ast.Node) bool {
+								c2, ok := y.(*ast.CallExpr)
+								if !ok {
+									return true
 								}
-							}
+								s2, ok := ast.Unparen(c2.Fun).(*ast.SelectorExpr)
+								if !ok || (s2.Sel.Name != "Lock" && s2.Sel.Name != "RLock") {
+									return true
+								}
+								fs := fieldSelOf(q.TypesInfo, s2.X, rv)
+								if fs == nil {
+									fs = recvFieldSel(m, q, s2.X)
+								}
+								if fs != nil {
+									tdLocks["recv."+fs.Sel.Name] = true
+								}
+								return true
+							})
 						}
 						return true
 					})
